@@ -1157,7 +1157,10 @@ def run(ctx, only=None):
         "infinite data: modelled (isinf test) and compared, but the theorems at R have no infinities",
         "eval_func / mesh handling of callables: exercised through Field, SRF, Krige, CondSRF outputs, modelled only as position-wise values",
     ]
-    ctx.tie["normalizer/methods.py: _normalize/_denormalize/_derivative, *_range (6 classes + base)"] = "hand model + correspondence"
+    ctx.tie["normalizer/methods.py: _normalize/_denormalize/_derivative of LogNormal, BoxCox, BoxCoxShift, YeoJohnson, Modulus, Manly (18 functions)"] = (
+        "translated (py2coq, regenerated on this run) and proved equal to the hand model: 12 for every number type, 6 (log1p/expm1) at R "
+        "(theorems C18_tie_*); additionally hand model executed against the implementation")
+    ctx.tie["normalizer/methods.py: normalize_range / denormalize_range; base class Normalizer formulas"] = "hand model + correspondence"
     ctx.tie["normalizer/base.py: _check_input, normalize, denormalize, derivative, (kernel_)loglikelihood"] = "hand model + correspondence"
     ctx.tie["normalizer/tools.py: apply_mean_norm_trend / remove_trend_norm_mean; field/base.py post_field; krige/base.py _krige_cond"] = "hand model + correspondence"
     ctx.tie["normalizer/base.py: fit (bookkeeping: free/skipped names, write-back, returned dict)"] = "hand model fit_book + correspondence (recorded and arbitrary optimisers)"
